@@ -132,3 +132,15 @@
   (ite (= (peop p) ",") (BConj (pebody (pel p) n) (pebody (per p) (+ n (pecnt (pel p)))))
   (ite (= (peop p) "->") (BIfThen (pebody (pel p) n) (pebody (per p) (+ n (pecnt (pel p)))))
        (BDisj (pebody (pel p) n) (pebody (per p) (+ n (pecnt (pel p)))))))))))
+
+; ---- clauses ----------------------------------------------------------------------------------
+(declare-datatypes ((CL 0)) (((CLFact (clhead SP)) (CLRule (clrhead SP) (clbody PE)))))   ; head '.'  |  head ':-' body '.'
+(define-fun clhd ((c CL)) SP (ite ((_ is CLRule) c) (clrhead c) (clhead c)))
+(declare-fun predta (Int) TA)                ; the term a goal identity stands for (predid is injective)
+(assert (forall ((t TA)) (! (= (predta (predid t)) t) :pattern ((predid t)))))
+; Python (ASCII) identifier - same definition as spec/strings.smt2
+(define-fun IDENT () RegLan (re.++ (re.union (re.range "a" "z") (re.range "A" "Z") (str.to_re "_"))
+                                   (re.* (re.union (re.range "a" "z") (re.range "A" "Z") (re.range "0" "9") (str.to_re "_")))))
+(define-fun clwf ((c CL)) Bool (and (spwf (clhd c)) (=> ((_ is CLRule) c) (wfpe (clbody c)))))
+(define-fun clbodyof ((c CL) (n Int)) Body (ite ((_ is CLRule) c) (pebody (clbody c) (+ n (spcnt (clhd c)))) BTrue))
+(define-fun clcnt ((c CL)) Int (+ (spcnt (clhd c)) (ite ((_ is CLRule) c) (pecnt (clbody c)) 0)))
